@@ -224,7 +224,8 @@ def verify_contract(reg: Registry, c: Contract, cfg: Config) -> FunctionReport:
             done_labels |= set(p.labels)
     rep.dead_alternatives = sorted(all_labels - done_labels)
     rep.dead_antecedents = sorted((f"{k[0]}: {k[1]} is empty on every path" if k[1].startswith("for ") else f"{k[0]}: implies({k[1]}, ...)") for k, reach in rep.covers.items() if not reach)
-    if rep.completed_paths == 0:
+    if rep.completed_paths == 0 and not any(o.verdict == "refuted" for o in rep.obligations):
+        # (a path that stopped at an obligation refuted outright - the claim cannot hold on it at all - is not a vacuous path: the refutation is the verdict)
         rep.status = "error"
         rep.reason = "vacuity guard: no path reached the end of the function (contradictory requires?)"
     rep.wall_s = time.time() - t0
@@ -279,7 +280,8 @@ def verify_lemma(reg: Registry, l: Lemma, cfg: Config) -> FunctionReport:
         rep.solver_s += p.solver_s
         if getattr(p, "completed", False):
             rep.completed_paths += 1
-    if rep.completed_paths == 0:
+    if rep.completed_paths == 0 and not any(o.verdict == "refuted" for o in rep.obligations):
+        # (a path that stopped at an obligation refuted outright - the claim cannot hold on it at all - is not a vacuous path: the refutation is the verdict)
         rep.status = "error"
         rep.reason = "vacuity guard: lemma hypotheses are contradictory"
     rep.wall_s = time.time() - t0
